@@ -554,6 +554,9 @@ func bxvUnwrapHook(v reflect.Value) reflect.Value {
 }
 
 func bxvValues() []interface{} {
+	sp1, sp2 := "abc", "x"
+	psp1 := &sp1
+	nsp := bxvNamedStr("abc")
 	i1, i2 := 1, 2
 	pi := &i1
 	ppi := &pi
@@ -569,6 +572,7 @@ func bxvValues() []interface{} {
 		[]byte("abc"), []bxvOctet{97, 98}, []float32{1.5}, []bool{true}, []uint8{1}, []bxvNamedStr{"abc"},
 		map[string]int{"abc": 1}, map[string]string{}, map[int]string{1: "a"}, map[bxvNamedStr]int{"abc": 1}, map[interface{}]int{"abc": 1, 1: 2}, map[float64]int{1.5: 1}, map[bool]int{true: 1}, nilMap,
 		pi, ppi, nilp, &s, nilIface, make(chan int), func() {}, struct{}{}, bxvInner{A: "abc", N: 1}, &bxvInner{A: "abc"},
+		[]*string{&sp1, nil, &sp2}, [2]*string{&sp2, &sp1}, []**string{&psp1}, []*bxvNamedStr{&nsp}, []*bool{nil}, []*float64{nil},
 		[]interface{}{5, 0}, []interface{}{7, 3, 0}, []interface{}{true, false}, []interface{}{uint(3), uint(0)}, []interface{}{2.5, 0.0}, []interface{}{float32(2.5), float32(0)},
 		[]interface{}{float64(8080), float64(0), "abc"}, []interface{}{"", "abc"}, []interface{}{nil, 4, nil, 0}, []interface{}{int8(1), int64(0)},
 		json.Number("1"), json.Number("1.5"), json.Number("x"), []json.Number{"1"}, json.Number("9007199254740993"), int64(9007199254740993), uint64(18446744073709551615), float64(9007199254740992),
@@ -622,7 +626,8 @@ func bxvOpCases() []bxvCase {
 
 func bxvBoolCases() []bxvCase {
 	d := map[string]interface{}{"T": 1, "F": 2, "S": []int{1}, "M": map[string]int{"a": 1}}
-	atoms := []string{"T == 1", "F == 1", "Missing == 1", "M.zz == 1", "S == 1", "T == x"}
+	atoms := []string{"T == 1", "F == 1", "Missing == 1", "M.zz == 1", "S == 1", "T == x",
+		"(any S as x { x == 1 })", "(any S as x { x == 9 })", "(any T as x { x == 1 })", "(all S as x { x == zz })", "(all M as k { k == a })"}
 	var out []bxvCase
 	for _, a := range atoms {
 		out = append(out, bxvCase{Expr: "not " + a, Data: d}, bxvCase{Expr: "not not " + a, Data: d}, bxvCase{Expr: "not (" + a + ")", Data: d})
@@ -710,6 +715,8 @@ func bxvCollCases() []bxvCase {
 			"i": []int{1, 2}, "k": map[string]int{"k": 1, "x": 2}, "x": []int{7}, "v": 9, "S": "str",
 			"G": []interface{}{map[string]interface{}{"Mem": []string{"bob", "al"}}, map[string]interface{}{"Mem": []string{"cy"}}},
 			"g": []interface{}{map[string]interface{}{"Mem": []string{"zed"}}},
+			"MIX": []interface{}{1, "foo"}, "NILS": []interface{}{nil, 1}, "JN": []interface{}{json.Number("7"), json.Number("1.0")}, "ES": []struct{ A int }{}, "ESI": []bxvInner{},
+			"NK": map[bxvNamedStr]int{"a": 1, "b": 2}, "PS": []*string{nil}, "LL": [][]int{{1}, {}},
 		},
 	}
 	exprs := []string{
@@ -723,6 +730,9 @@ func bxvCollCases() []bxvCase {
 		"any L as x { any L as x { x == 3 } }", "any L as x { any L as y { x == 1 and y == 3 } }", "all L as x { any L as y { y == x } }",
 		"any G as g { any g.Mem as g { g == bob } }", "any G as g { any g.Mem as m { m == cy } }", "any G as a { any a.Mem as b { any G as a { a.Mem is not empty } } }",
 		"any L as x { x == 1 } and all L as y { y != 9 }", "(any L as x { x == 9 }) or (any L as x { x == 3 })", "not (any L as x { x == 9 })",
+		`any MIX as x { x == "foo" }`, "any MIX as x { x == foo }", "any MIX as x { x == 1 }", "all MIX as x { x != 2 }", "any NILS as x { x == 1 }", "all NILS as x { x == 1 }", "any JN as x { x == 1 }", "any JN as x { x == 7 }",
+		"any ES as x { x == 1 }", "all ES as x { x == 1 }", "any ESI as x { x.A == a }", "any NK as k, v { v == 1 }", "all NK as k, v { k != zzz }", "any NK as k { k == a }", "any NK as _, v { v == 2 }", "any PS as x { x == a }",
+		"any LL as x { any x as y { y == 1 } }", "all LL as x { x is not empty }", "any L as x { x == 2 } or Zz == 1", "(any L as x { x == 9 }) or Zz == 1", "(any S as x { x == s }) or v == 9", "(any S as x { x == s }) and v == 9", "(any L as x { x == 2 }) and Zz == 1",
 		`any "/L" as x { x == 2 }`, `any L as x { "/x" == 2 }`, `any LS as x { "/x/f" == 2 }`,
 	}
 	var out []bxvCase
@@ -739,10 +749,14 @@ func bxvDeterminism(fails *[]bxvFailure) int {
 	n := 0
 	d := map[string]interface{}{"M": map[string]interface{}{"a": map[string]interface{}{"x": 1}, "b": 5, "c": map[string]interface{}{"x": 2}, "d": "s"}}
 	exprs := []string{"any M as k, v { v.x == 1 }", "all M as k, v { v.x == 1 }", "any M as _, v { v.x == 2 }", "all M as _, v { v.x == 9 }", "any M as k { k == b }", "any M as _, v { v == s }", "all M as _, v { v != 5 }",
+		`"web" in IK`, `"web" not in IK`, `"99999999999999999999" in IK2`, `1 in IK2`, `"web" in IK3`,
 		"any T as _, v { v == abc }", "all T as _, v { v != abc }", "any T as k, v { v == abc }", "any T as k { k == node }", "all U as _, v { v == abc }", "any U as _, v { v == abc }"}
 	// keys that collide under case folding, are prefixes of one another, or
 	// sort differently as bytes and as runes: one entry errors, its twin decides
 	d["T"] = map[string]interface{}{"Node": "abc", "node": 5, "NODE": 6}
+	d["IK"] = map[interface{}]int{"web": 1, struct{ A int }{1}: 2, [1]int{1}: 3}
+	d["IK2"] = map[interface{}]int{"99999999999999999999": 1, 1: 2, 2.5: 3, true: 4}
+	d["IK3"] = map[interface{}]interface{}{"web": 1, "db": nil, 7: "x"}
 	d["U"] = map[string]interface{}{"a": "abc", "a\x00": 5, "ab": "abc", "é": 5, "z": "abc", "Z": 5}
 	for _, e := range exprs {
 		seen := map[string]int{}
@@ -963,10 +977,16 @@ func bxvConcurrent(fails *[]bxvFailure) int {
 // history independence / purity
 func bxvHistory(fails *[]bxvFailure) int {
 	n := 0
-	exprs := []string{"S matches `a.*`", "X == 1", "any L as x { x == 2 }", "M.zz == 1", "Zz == 1"}
+	exprs := []string{"S matches `a.*`", "X == 1", "any L as x { x == 2 }", "M.zz == 1", "Zz == 1", "M.zz != 1", "M.zz is empty", "M.zz.y != 1", "1 in M.zz", "all M.zz as x { x == 1 }", "X == 1.0", "X in L"}
+	// same Go type, different shape behind the interfaces: what one datum taught the evaluator must not leak into the next
 	data := []interface{}{
 		map[string]interface{}{"S": "abc", "X": 1, "L": []int{1, 2}, "M": map[string]int{}},
 		map[string]interface{}{"S": 5, "X": "x", "L": 5, "M": 5},
+		map[string]interface{}{"M": map[string]interface{}{}},
+		map[string]interface{}{},
+		map[string]interface{}{"M": map[string]interface{}{"zz": map[string]interface{}{}}, "X": 1.0, "L": []interface{}{1.0, "x"}},
+		map[string]interface{}{"M": []int{1}, "X": int8(1), "L": []int8{1}},
+		map[string]interface{}{"M": map[string]interface{}{"zz": 1}, "X": uint(1), "L": "1"},
 		nil,
 	}
 	// a producer blocked on an unbuffered channel reachable from the datum must
@@ -1353,7 +1373,7 @@ func bxvRefRender(e grammar.Expression, ind string, k int) string {
 func bxvDumpCases(fails *[]bxvFailure) int {
 	exprs := []string{"a == 1", "a.b.c != x", `"/a/b" in c`, "x not in y", "a is empty", "a is not empty", "a matches `x.*`", "a not matches `y`", "not a == 1",
 		"a == 1 and b == 2", "a == 1 or b == 2 and not c == 3", "any a.b as x { x == 1 }", "all a as i, v { v == 1 and i != 2 }", "any a as _, v { v is empty }", "all a as i, _ { i == 0 }",
-		"a == `say \"hi\"`", "a == `C:\\dir`", "a == `line1\nline2`", "a == \"tab\\there\"", "a == `}\nOr {`", "a == \"\"", "a contains `é`", `"/x/~0y" == 1`,
+		"a == `say \"hi\"`", "a == `C:\\dir`", "a == `line1\nline2`", "a == \"tab\\there\"", "a == `}\nOr {`", "a == \"\"", "a contains `é`", `"/x/~0y" == 1`, `"/a/../b" == 1`, `"/a/./b" == 1`, `"/.." == 1`, `any "/../x" as k, v { v == 1 }`, `a["."].b == 1`, `a[".."] == 1`, "a.b == `/a/../b`",
 		"any a as x { any x.b as y { y == `q\"` or not y matches `z` } }"}
 	n := 0
 	for _, in := range exprs {
